@@ -161,12 +161,15 @@ prop("C12",
      "DESIGN.md 4/C12")
 
 prop("C13",
-     [dict(name="C13", src="rcu.cpp", cxxflags=["-DMODE_C13"], deadline=dict(quick=100, thorough=1200))],
+     [dict(name="C13", src="rcu.cpp", cxxflags=["-DMODE_C13"], deadline=dict(quick=100, thorough=1200)),
+      dict(name="C13_string", src="rcu.cpp", cxxflags=["-DMODE_C13", "-DELEM_STRING"], deadline=dict(quick=60, thorough=600),
+           args=dict(quick=["--max-items", "3000"], thorough=[]))],
      "Sequential part: every well-formed history up to depth 6 (7 thorough) over {lock_read, lock_write, first "
      "access (begin), release, push_front, push_back, ++it, erase(it)} on an empty and on a 2-element list, ending "
      "with release and list destruction. Concurrent part: " + SCHED_RULE + " Programs: pausing traversers, erasers, "
      "pushers and 1-3 short-lived handles (reclamation by concurrent releases).",
-     "Real rcu_list<Tracked, std::mutex, CountingAlloc<Tracked>>: element type with non-trivial destructor, "
+     "Real rcu_list<Tracked, std::mutex, CountingAlloc<Tracked>> and rcu_list<element holding a heap-allocated "
+     "std::string> (second harness; quick tier: the first 3000 histories): element type with non-trivial destructor, "
      "self-pointer canary and instance counter; allocator that records allocate/deallocate/construct/destroy per "
      "pointer. Oracles at every event: destroy/deallocate only of a currently constructed/allocated pointer (null, "
      "never-constructed, double = violation); at the end every allocation released once, every object destroyed "
